@@ -108,6 +108,25 @@ func (w *Wallet) handleChainNotifications() {
 						"again in %s: %v",
 						w.syncRetryInterval, err)
 
+					// The failed attempt may already have
+					// determined and stored the birthday
+					// block. Pick it up: locating it once
+					// more would try to move the sync state
+					// back to a block whose predecessor is
+					// not stored, which fails every retry.
+					if birthdayBlock == nil {
+						store := &walletBirthdayStore{
+							db:      w.db,
+							manager: w.Manager,
+						}
+						block, err := birthdaySanityCheck(
+							chainClient, store,
+						)
+						if err == nil {
+							birthdayBlock = block
+						}
+					}
+
 					continue
 				}
 
